@@ -41,8 +41,8 @@ def check(prop, name, gen, functions=(), note=""):
     return deco
 
 
-class Timeout(Exception):
-    pass
+class Timeout(BaseException):
+    """(not an Exception: `except Exception` in a check or in the code under test must not swallow it)"""
 
 
 def _alarm(signum, frame):
@@ -52,7 +52,8 @@ def _alarm(signum, frame):
 def run_one(chk, inp, limit_s=20):
     """Returns None or failure text.  A time-out is a failure only for checks that say so."""
     signal.signal(signal.SIGALRM, _alarm)
-    signal.alarm(limit_s)
+    # fires again every 5 s after the limit: a time-out swallowed by a bare `except:` somewhere is raised once more
+    signal.setitimer(signal.ITIMER_REAL, limit_s, 5)
     try:
         return chk.fn(inp)
     except Timeout:
@@ -62,7 +63,7 @@ def run_one(chk, inp, limit_s=20):
     except Exception as e:
         return f"unexpected {type(e).__name__}: {e}\n" + traceback.format_exc(limit=6)
     finally:
-        signal.alarm(0)
+        signal.setitimer(signal.ITIMER_REAL, 0)
 
 
 def input_key(inp):
@@ -97,7 +98,8 @@ def run_checks(prop, tier, seed, focus=None, budget_s=None, only=None):
             continue
         rng = random.Random(f"{rng_seed}:{name}")
         deep = bool(focus) and any(f in focus for f in chk.functions)
-        n = fails = 0
+        n = fails = timeouts = 0
+        stopped = ""
         c0 = time.time()
         samples = []
         for inp in chk.gen("thorough" if deep else tier, rng):
@@ -113,6 +115,8 @@ def run_checks(prop, tier, seed, focus=None, budget_s=None, only=None):
             if len(samples) < 2:
                 samples.append(inp)
             res = run_one(chk, inp)
+            if res is not None and res.startswith("did not return within"):
+                timeouts += 1
             if res is not None:
                 fails += 1
                 if fails <= 3:
@@ -121,8 +125,13 @@ def run_checks(prop, tier, seed, focus=None, budget_s=None, only=None):
                                                 finding_key=f"{name}:{key}", observed=res[:600], input=inp))
             if budget_s and time.time() - c0 > budget_s:
                 break
+            if timeouts >= 3:
+                # code under test that does not return costs the full per-input limit every time: three such inputs are reported,
+                # the rest of this check's inputs is skipped (the check has failed anyway)
+                stopped = f"stopped after {timeouts} inputs that did not return"
+                break
         out["checks"].append(dict(name=name, functions=chk.functions, inputs=n, failures=fails,
-                                  wall_s=round(time.time() - c0, 2), samples=samples, note=chk.note))
+                                  wall_s=round(time.time() - c0, 2), samples=samples, note=chk.note + (f" [{stopped}]" if stopped else "")))
         out["evaluations"] += n
     out["distinct"] = len(seen)
     out["wall_s"] = round(time.time() - t0, 2)
